@@ -123,6 +123,17 @@ impl Ctx {
         self.log.borrow_mut().push(Ev::ActF(pid, d));
         Ok(Node(d))
     }
+    /// The error value a failing action returns: chosen by the injected id among the variants a
+    /// user action may legally produce (`User`, and non-`User` variants with empty or non-empty
+    /// `expected`).  `wrapped_outcome` is what `parse` must then return, verbatim.
+    pub fn wrap<L: Default, T>(&self, e: UserErr) -> ParseError<L, T, UserErr> {
+        match e.0 % 4 {
+            1 => ParseError::UnrecognizedEof { location: L::default(), expected: vec![] },
+            2 => ParseError::UnrecognizedEof { location: L::default(), expected: vec![format!("planted-{}", e.0)] },
+            3 => ParseError::InvalidToken { location: L::default() },
+            _ => ParseError::User { error: e },
+        }
+    }
     pub fn rec<L: Debug, T: Debug, E: Debug>(&self, e: ErrorRecovery<L, T, E>) -> Node {
         let kind = match &e.error {
             ParseError::InvalidToken { .. } => "InvalidToken",
@@ -220,6 +231,17 @@ pub enum Outcome {
     Unrecognized { lo: i64, tok: String, hi: i64, expected: Vec<String> },
     Extra { lo: i64, tok: String, hi: i64 },
     User(u32),
+}
+
+/// what `parse` must return when the action error with this id was wrapped by `Ctx::wrap`;
+/// `default_loc` is the normalised `Default` of the parser's location type
+pub fn wrapped_outcome(id: u32, default_loc: i64) -> Outcome {
+    match id % 4 {
+        1 => Outcome::Eof { loc: default_loc, expected: vec![] },
+        2 => Outcome::Eof { loc: default_loc, expected: vec![format!("planted-{id}")] },
+        3 => Outcome::InvalidToken(default_loc),
+        _ => Outcome::User(id),
+    }
 }
 
 impl Outcome {
